@@ -269,6 +269,9 @@ def strict_json_ok(obj):
         return False
 
 
+REQUEST_TIMEOUT = 6.0
+
+
 async def call(ctx, sid, method, args, raw_line=None):
     """Run one request on the real session.  Returns (outcome line, args as Python objects,
     encodable)."""
@@ -288,9 +291,13 @@ async def call(ctx, sid, method, args, raw_line=None):
         request = Request(method, args)
     encodable = True
     try:
-        result = await s.handle_request(request)
+        # a handler that spins for ever (e.g. in the DB's retry loop on a script hash that is no
+        # script hash) is an outcome, not a hang of the harness
+        result = await asyncio.wait_for(s.handle_request(request), REQUEST_TIMEOUT)
         out = summarise_result(ctx, method, result)
         encodable = strict_json_ok(result)
+    except asyncio.TimeoutError:
+        out = 'internal NoReplyWithinTimeout'
     except RPCError as e:
         out = f'rpc {e.code}'
     except ReplyAndDisconnect as e:
@@ -340,7 +347,10 @@ class Values:
             sh1.upper(), sh1[:32] + ' ' + sh1[32:], ' ' + sh1 + '\n', sh1[:2] + '\t' + sh1[2:]]
         self.sh_edge = [sh1[:62], sh1[:63], sh1 + '00', sh1[:31] + ' ' + sh1[31:], 'zz' * 32, '', sh1 + 'g',
                         '０' * 64, sh1[:-1] + 'é', 5, None, True, 1.5, [sh1], {'a': sh1}, nan, 2 ** 256,
-                        '0x' + sh1[2:], sh1.replace('a', 'A', 1), '\x00' * 64]
+                        '0x' + sh1[2:], sh1.replace('a', 'A', 1), '\x00' * 64,
+                        # 64 characters, but byte pairs replaced by white space: fewer than 32 bytes
+                        sh1[:60] + '  ' + sh1[62:], ' ' * 62 + sh1[:2], sh1[:2] + '\t\n' * 31, ' ' * 64,
+                        sh1[:30] + ' \r\x0b\x0c' + sh1[34:]]
         self.tx_valid = [t for t, _h, _i in self.txs] + [self.absent_tx, self.txs[-1][0].upper()]
         self.bool_valid = [True, False, 0, 1, 0.0, 1.0]
         self.bool_edge = [2, -1, 'true', 'false', '', None, [], [True], {}, nan, inf, 0.5, '1', 10 ** 30]
@@ -897,6 +907,12 @@ def probe_validators(v, runner, res):
         for kind, (fn, show) in kinds.items():
             try:
                 want = 'ok ' + show(fn(x))
+                if kind == 'sh' and not _is_script_hash(x) and len(res.violations) < 5:
+                    # direct oracle: a script hash is 32 bytes written in hex; anything else is malformed
+                    res.violations.append({'suite': 'rpc', 'clause': 'refused', 'probe': kind,
+                                           'detail': f'malformed script hash {args_to_json(x)[:90]} was accepted '
+                                                     f'(as hashX {want[3:]}) instead of refused',
+                                           'method': '', 'args': args_to_json([x])})
             except RPCError as e:
                 want = f'rpc {e.code}'
             except Exception as e:   # noqa
@@ -909,6 +925,15 @@ def probe_validators(v, runner, res):
             res.evaluations += 1
             res.bump(f'validator:{kind}:{want.split()[0]}')
     res.bump('validator_probes', len(values) * len(kinds))
+
+
+def _is_script_hash(x):
+    if not isinstance(x, str):
+        return False
+    try:
+        return len(bytes.fromhex(x)) == 32
+    except ValueError:
+        return False
 
 
 def coverage_checks(res, methods):
